@@ -169,6 +169,18 @@ def inflateLoop (L : Lib) (src : Bytes) : (fuel : Nat) → (room : Nat) → CRes
         | 0 => .wrap
         | fuel + 1 => inflateLoop L src fuel (2 * room)
 
+/-- `_mtbl_decompress_lz4`: LZ4 and LZ4HC use the same decompressor (a function of its own so that evaluating the
+    model for another algorithm does not evaluate it) -/
+def decompressLz4 (L : Lib) (stored : Bytes) : CRes :=
+  let n := stored.length
+  if n > INT_MAX ∨ n < 4 then .fail
+  else
+    let size := dec32 stored                   -- mtbl_fixed_decode32(input)
+    if size > INT_MAX then .fail               -- (int) cast: negative capacity, LZ4_decompress_safe returns < 0
+    else match L.decomp .lz4 size (stored.drop 4) with
+      | .ok o => .ok (sized size o)            -- *output_size keeps the prefix value
+      | _ => .fail
+
 /-- `mtbl_decompress` on a valid enum value.
     `fixF5 = false`: the pinned zstd wrapper, `if (*output_size <= 0) return failure` on the value of
     `ZSTD_getFrameContentSize` cast to `size_t`: a content size of 0 is refused, while the two error codes
@@ -176,14 +188,6 @@ def inflateLoop (L : Lib) (src : Bytes) : (fuel : Nat) → (room : Nat) → CRes
     `fixF5 = true`: the repaired wrapper refuses exactly the two error codes. -/
 def decompress (fixF5 : Bool) (L : Lib) (a : Algo) (stored : Bytes) : CRes :=
   let n := stored.length
-  let lz4 : CRes :=                              -- LZ4 and LZ4HC use the same decompressor
-    if n > INT_MAX ∨ n < 4 then .fail
-    else
-      let size := dec32 stored                   -- mtbl_fixed_decode32(input)
-      if size > INT_MAX then .fail               -- (int) cast: negative capacity, LZ4_decompress_safe returns < 0
-      else match L.decomp .lz4 size (stored.drop 4) with
-        | .ok o => .ok (sized size o)            -- *output_size keeps the prefix value
-        | _ => .fail
   match a with
   | .none => .fail
   | .snappy =>
@@ -197,8 +201,8 @@ def decompress (fixF5 : Bool) (L : Lib) (a : Algo) (stored : Bytes) : CRes :=
     let room := 4 * n - (4 * n) % 1024 + 1024
     if n ≥ U32 ∨ room ≥ U32 then .wrap           -- zs.avail_in = input_size; zs.avail_out = *output_size
     else inflateLoop L stored 32 room
-  | .lz4 => lz4
-  | .lz4hc => lz4
+  | .lz4 => decompressLz4 L stored
+  | .lz4hc => decompressLz4 L stored
   | .zstd =>
     if n > INT_MAX then .fail
     else match L.zstdContentSize stored with
